@@ -1,5 +1,6 @@
 """C13 bounded native harness: OPEN / CLOSE / CLEAR present the ledger as a period report."""
 import datetime
+import re
 import itertools
 from decimal import Decimal
 
@@ -34,6 +35,9 @@ def acct_totals(rows):
 
 def root(a):
     return a.split(':')[0]
+
+
+PRINT_COMBOS = set()
 
 
 def check_ledger(res, name, src):
@@ -120,6 +124,25 @@ def check_ledger(res, name, src):
             rows2 = conn.execute(f'SELECT id, date, account, position, weight FROM{clause2}').fetchall()
             if sorted((r[2], str(r[3])) for r in rows) != sorted((r[2], str(r[3])) for r in rows2):
                 res.violation('h13:close-after-end', 'CLOSE ON a date after the ledger end equals CLOSE at the ledger end', {'ledger': name, 'clause': clause}, len(rows), len(rows2))
+        # (f) PRINT presents the same period report: the transactions it prints are the transactions the SELECT sees
+        if (d, e, clear) in PRINT_COMBOS or len(PRINT_COMBOS) < 6:
+            PRINT_COMBOS.add((d, e, clear))
+            try:
+                import io as _io
+                from beanquery import query_execute, compiler as _compiler, parser as _parser
+                out = _io.StringIO()
+                query_execute.execute_print(_compiler.compile(conn, _parser.parse(f'PRINT FROM{clause}')), out)
+                printed = sorted(re.findall(r'^(\d{4}-\d{2}-\d{2}) [^a-z\s]\s', out.getvalue(), re.M))   # transactions print their flag (*, !, S for summarisation entries), other directives a lower-case keyword
+                ids = []
+                for r in rows:
+                    if r[0] not in ids:
+                        ids.append(r[0])
+                seen = sorted(next(x[1] for x in rows if x[0] == i).isoformat() for i in ids)
+                if printed != seen:
+                    res.violation('h13:print-period', 'PRINT FROM <qualifiers> prints the transactions of the same period report as SELECT FROM <qualifiers>',
+                                  {'ledger': name, 'clause': clause}, (len(printed), printed[:3]), (len(seen), seen[:3]))
+            except Exception as ex:
+                res.violation(f'h13:print-crash:{type(ex).__name__}', 'PRINT FROM <qualifiers> executes', {'ledger': name, 'clause': clause}, f'{type(ex).__name__}: {ex}', 'text')
         # (e) clauses apply independently of the filter expression
         for expr, fn in (("year = 2020", lambda r: r[1].year == 2020), ("account ~ 'Assets'", lambda r: 'Assets' in r[2])):
             q2 = f'SELECT id, date, account, position, weight FROM {expr}{clause}'
